@@ -187,8 +187,20 @@ def main():
             def mjob(a):
                 p, label, pat, rep, expect_re = a
                 r = prover.run_proof(p, workroot, mutate=(pat, rep))
-                hit = r['verdict'] == 'violation'   # any failed obligation detects the mutant; expect_re documents the one intended
-                return p.name, label, r['verdict'], hit, [f['obligation'] for f in r['failures']][:4], r['reason'][:200]
+                # any failed obligation that is not a listed known finding detects the mutant; expect_re documents the one intended
+                fresh = []
+                for f in r['failures']:
+                    site = ''
+                    if getattr(p, 'site', None):
+                        try:
+                            site = p.site(f) or ''
+                        except Exception:
+                            site = ''
+                    if not [k for k in known if k['proof'] == p.name and re.search(k['obligation'], f['obligation'] + ' ' + (f['description'] or ''))
+                            and (not k.get('site') or re.search(k['site'], site))]:
+                        fresh.append(f)
+                hit = r['verdict'] == 'violation' and bool(fresh)
+                return p.name, label, r['verdict'], hit, [f['obligation'] for f in fresh][:4], r['reason'][:200]
             with concurrent.futures.ThreadPoolExecutor(max_workers=jobs) as ex:
                 for name, label, verdict, hit, obs, reason in ex.map(mjob, mjobs):
                     mutant_results.append({'proof': name, 'mutant': label, 'verdict': verdict, 'killed_by_expected_obligation': hit, 'failed': obs})
